@@ -24,6 +24,7 @@ EXPLANATION = (
     "offending line, and print_error raises unless dbg/force. R4: cursor progress in the three "
     "QUOTES_RE masking loops - search_from grows by a match end that the regex-language engine "
     "proves non-empty. Termination of FORD on every input is not decided."
+    " Added after waves 6/7 - diagnostics escape the text they report before it reaches rich's markup parser; parse-time code never turns an entity into text (which would take a page name); regex repeats are free of iteration-boundary ambiguity (exponential backtracking)."
 )
 ASSUMPTIONS = ["regex backtracking time and recursion depth are run-time quantities outside this analysis"]
 
@@ -128,8 +129,72 @@ def mutable_literal(v: ast.AST) -> bool:
     return False
 
 
+_PARSE_TIME = ("__init__", "_initialize", "_cleanup", "_common_initialize", "_procedure_initialize")
+_ENTITY_TEXT = re.compile(r"self(\.parent)*")
+
+_STR_OF_ENTITY_EXAMPLE = """
+class FortranThing(FortranBase):
+    def _cleanup(self):
+        if bad:
+            raise ValueError(f"Non-integer in {self.parent.obj} '{self.parent}'.")
+        raise ValueError(f"fine: '{self.parent.name}' {self.name!r}")
+"""
+
+
+def _str_of_entity_sites(fn: ast.AST):
+    """expressions that turn an entity (`self`, `self.parent`, ...) into text: `f"{self.parent}"`, `str(self)`, `"%s" % self`"""
+    out = []
+    for x in ast.walk(fn):
+        if isinstance(x, ast.FormattedValue) and _ENTITY_TEXT.fullmatch(ast.unparse(x.value)):
+            out.append(x)
+        elif isinstance(x, ast.Call) and call_name(x) in ("str", "format") and len(x.args) == 1 and _ENTITY_TEXT.fullmatch(ast.unparse(x.args[0])):
+            out.append(x)
+        elif isinstance(x, ast.Call) and isinstance(x.func, ast.Attribute) and x.func.attr == "format" and any(
+                _ENTITY_TEXT.fullmatch(ast.unparse(a)) for a in list(x.args) + [k.value for k in x.keywords]):
+            out.append(x)
+        elif isinstance(x, ast.BinOp) and isinstance(x.op, ast.Mod) and any(
+                _ENTITY_TEXT.fullmatch(ast.unparse(a)) for a in (x.right.elts if isinstance(x.right, ast.Tuple) else [x.right])):
+            out.append(x)
+    return out
+
+
+def _no_entity_text_while_parsing(ctx, rep):
+    """`str(entity)` is not a pure operation: `FortranBase.__str__` builds a link, the link needs the URL, the URL needs `ident`,
+    and `ident` takes the next free page name from the process-wide NameSelector.  While a file is being parsed (constructors,
+    `_initialize`, `_cleanup`) nothing may do that - in particular no error message: the file is rejected, but the name of the
+    enclosing unit is gone, and a valid unit of the same name in another file becomes `name~2` (its page moves)."""
+    py = ctx.py
+    ex = [n for n in ast.walk(ast.parse(_STR_OF_ENTITY_EXAMPLE)) if isinstance(n, ast.FunctionDef)]
+    if [len(_str_of_entity_sites(f)) for f in ex] != [1]:
+        raise AnalysisError("str-of-entity matcher fails on its own example")
+    st = py.func("FortranBase.__str__")
+    consumes = any(isinstance(a, ast.Attribute) and a.attr in ("full_url", "ident") or
+                   (isinstance(a, ast.Call) and call_name(a).endswith("get_url")) for a in ast.walk(st))
+    if not consumes:
+        rep.ob("str(entity) does not hand out page names", True, "FortranBase.__str__ no longer reads the URL", py.nloc(st))
+        return
+    n = 0
+    for cname, ci in sorted(py.classes.items()):
+        if ci.module != "sourceform" or not py.is_subclass(cname, "FortranBase"):
+            continue
+        for mname, fn in ci.methods.items():
+            if mname not in _PARSE_TIME:
+                continue
+            n += 1
+            for x in _str_of_entity_sites(fn):
+                rep.ob(f"{cname}.{mname}: no text is made of an entity while its file is parsed", False,
+                       f"`{ast.unparse(x)[:50]}` calls FortranBase.__str__, which asks for the entity's URL and thereby takes a page "
+                       f"name out of the shared NameSelector - also when the statement is an error message for a file that is then "
+                       f"rejected: a valid entity of the same name in another file is renamed `~2` and its page moves", py.nloc(x))
+    rep.ob("parse-time code never turns an entity into text", True, f"{n} constructors / _initialize / _cleanup methods inspected",
+           "ford/sourceform.py", nontrivial=False)
+    if n < 20:
+        raise AnalysisError(f"only {n} parse-time methods found")
+
+
 def r2_no_cross_file_state(ctx, rep):
     py = ctx.py
+    _no_entity_text_while_parsing(ctx, rep)
     ff = py.func("Project._fortran_file")
     ctor_line = None
     for c in py.walk_calls(ff):
@@ -302,9 +367,11 @@ def r4_cursor_progress(ctx, rep):
             if not isinstance(w, ast.While):
                 continue
             # cursor: the name used as lower bound of the slice that the loop test searches, or as its `pos` argument
-            cursors = {sl.slice.lower.id for c in ast.walk(w.test) if quote_search(c) for sl in ast.walk(c)
+            # (the search may be the loop test or, in a `while True:` loop with an early exit, the first thing in the body)
+            searches = [c for c in ast.walk(w.test) if quote_search(c)] or [c for c in ast.walk(w) if quote_search(c)]
+            cursors = {sl.slice.lower.id for c in searches for sl in ast.walk(c)
                        if isinstance(sl, ast.Subscript) and isinstance(sl.slice, ast.Slice) and isinstance(sl.slice.lower, ast.Name)}
-            cursors |= {c.args[1].id for c in ast.walk(w.test) if quote_search(c) and len(c.args) >= 2 and isinstance(c.args[1], ast.Name)}
+            cursors |= {c.args[1].id for c in searches if len(c.args) >= 2 and isinstance(c.args[1], ast.Name)}
             if len(cursors) != 1:
                 continue
             cur = cursors.pop()
@@ -320,6 +387,10 @@ def r4_cursor_progress(ctx, rep):
             # not from the match object taken before the replacement
             subs = [a_ for a_ in ast.walk(w) if isinstance(a_, ast.Assign) and any(
                 isinstance(c, ast.Call) and isinstance(c.func, ast.Attribute) and c.func.attr == "sub" for c in ast.walk(a_.value))]
+            # the replacement done by splicing: `text = text[:a] + new + text[b:]`
+            subs += [a_ for a_ in ast.walk(w) if isinstance(a_, ast.Assign) and len(a_.targets) == 1 and isinstance(a_.value, ast.BinOp)
+                     and sum(1 for p_ in ast.walk(a_.value) if isinstance(p_, ast.Subscript) and isinstance(p_.slice, ast.Slice)
+                             and ast.unparse(p_.value) == ast.unparse(a_.targets[0])) == 2]
             def is_fresh(recv) -> bool:
                 if quote_search(recv):
                     return True
@@ -327,6 +398,10 @@ def r4_cursor_progress(ctx, rep):
                     defs = [d for d in ast.walk(w) if (isinstance(d, ast.NamedExpr) and d.target.id == recv.id)
                             or (isinstance(d, ast.Assign) and any(isinstance(t, ast.Name) and t.id == recv.id for t in d.targets))]
                     defs = [d for d in defs if not any(d is x for x in ast.walk(w.test))]
+                    # in a `while True:` loop the first search of the iteration is an ordinary statement: only searches made
+                    # after the replacement count
+                    if subs and any(d.lineno < min(s_.lineno for s_ in subs) for d in defs) and not any(quote_search(c) for c in ast.walk(w.test)):
+                        defs = [d for d in defs if d.lineno > max(s_.lineno for s_ in subs)] or defs
                     return bool(defs) and bool(subs) and all(d.lineno > max(s_.lineno for s_ in subs) and
                                                               any(quote_search(c) for c in ast.walk(d.value)) for d in defs)
                 return False
